@@ -270,6 +270,7 @@ def explore10(cfg: dict) -> dict:
             cb = scenario(cfg, ConSrc(inp), False)
             res['candidates'].append({'symbolic': bad, 'inputs': inp, 'replay': {'bad': cb, 'impl': None, 'ref': None}})
     res['exhausted'] = ctx.exhausted
+    res['smt_samples'] = list(ctx.samples)
     res['stats'] = ctx.stats.as_dict()
     res['assumptions'] = list(ctx.assumptions)
     res['shim_calls'] = {}
